@@ -7,7 +7,7 @@ global size_of usize == 8;   // 64-bit target
 #[derive(Debug)]
 pub enum IggyError {
     CannotEncryptData, CannotDecryptData, InvalidMessagesCount, NoPartitions(u32, u32), Unauthenticated, Unauthorized,
-    InvalidCommand, InvalidNumberEncoding, CannotAppendToFile, InvalidStateEntryChecksum(u32, u32, u64), Other,
+    InvalidCommand, InvalidNumberEncoding, CannotAppendToFile, InvalidStateEntryChecksum(u32, u32, u64), InvalidEncryptionKey, Other,
 }
 
 // R4: IggyByteSize -> u64; its conversions are identities
@@ -50,6 +50,26 @@ impl AeadCipher {
     #[verifier::external_body]
     pub fn decrypt(&self, nonce: &GenericArray, data: &[u8]) -> (r: Result<Vec<u8>, AeadError>)
         ensures match r { Ok(p) => aead_dec(self.key(), nonce.bytes(), data@) == Some(p@) && p@.len() <= data@.len(), Err(_) => aead_dec(self.key(), nonce.bytes(), data@) is None },
+    { unimplemented!() }
+}
+// aead::generic_array::GenericArray<u8, U32> (the key; R4 monomorphic instance of from_slice, only in Aes256GcmEncryptor::new):
+// panics unless the slice has exactly 32 bytes. `key_of_bytes`: the key that 32 bytes of key material are (A-dep(AES-GCM):
+// Aes256Gcm::new builds the cipher for exactly the bytes it is given)
+#[verifier::external_body]
+pub struct KeyArray { x: u8 }
+pub uninterp spec fn key_of_bytes(b: Seq<u8>) -> Key;
+impl KeyArray {
+    pub uninterp spec fn bytes(&self) -> Seq<u8>;
+    #[verifier::external_body]
+    pub fn from_slice<'a>(s: &'a [u8]) -> (r: &'a KeyArray)
+        requires s@.len() == 32,
+        ensures r.bytes() == s@,
+    { unimplemented!() }
+}
+impl AeadCipher {
+    #[verifier::external_body]
+    pub fn new(k: &KeyArray) -> (r: AeadCipher)
+        ensures r.key() == key_of_bytes(k.bytes()),
     { unimplemented!() }
 }
 // Aes256GcmEncryptor::encrypt (sdk/src/utils/crypto.rs; fresh random nonce, `[&nonce, ct].concat()`): NOT extracted
